@@ -115,3 +115,8 @@ PROPS['C13'] = dict(
     unit_modules=[], driver_modules=['drivers.c13'], level='other',
     level_text='tbd', level_note='tbd', assumptions=COMMON_ASSUMPTIONS,
 )
+
+PROPS['C12'] = dict(
+    unit_modules=[], driver_modules=['drivers.c12'], level='other',
+    level_text='tbd', level_note='tbd', assumptions=COMMON_ASSUMPTIONS,
+)
